@@ -28,7 +28,10 @@ const MIB: usize = 1 << 20;
 /// The wall clock while `StoredPoint::open` runs (it stamps `LastAttempt` headers).
 const FAKE_NOW: i64 = 1_700_000_000;
 /// Seconds a single case may take.
-const CASE_SECONDS: u32 = 8;
+const CASE_SECONDS: u32 = 6;
+/// After this many dead children per reader the remaining cases of that reader are skipped
+/// (the failures found are reported; the run stays within its time budget).
+const MAX_DEATHS_PER_READER: usize = 8;
 /// Address-space limit of the child.
 const CHILD_AS_LIMIT: u64 = 3 << 30;
 
@@ -67,6 +70,18 @@ fn from_sparse(v: &Value) -> Option<Vec<u8>> {
         data[off..off + bytes.len()].copy_from_slice(&bytes);
     }
     Some(data)
+}
+
+/// The text form for the model driver: `<len>:<offset>=<hex>,…`.
+fn sparse_text(v: &Value) -> String {
+    let v = match v {
+        Value::String(s) => to_sparse(&unhex(s).unwrap_or_default()),
+        other => other.clone(),
+    };
+    let chunks: Vec<String> = v["chunks"].as_array().map(|l| l.iter().map(|c| {
+        format!("{}={}", c[0].as_u64().unwrap_or(0), c[1].as_str().unwrap_or("."))
+    }).collect()).unwrap_or_default();
+    format!("{}:{}", v["len"].as_u64().unwrap_or(0), chunks.join(","))
 }
 
 //------------ Child side ----------------------------------------------------
@@ -272,6 +287,8 @@ pub fn child_main(args: &[String]) -> i32 {
     if args.len() < 4 { return 2 }
     let start: usize = args[2].parse().unwrap_or(0);
     let offset: u64 = args[3].parse().unwrap_or(0);
+    // readers that have already killed several children are not tried again
+    let capped: Vec<&str> = args.get(4).map(|s| s.split(',').filter(|l| !l.is_empty()).collect()).unwrap_or_default();
     let mut file = std::fs::File::open(&args[0]).expect("open cases");
     file.seek(SeekFrom::Start(offset)).expect("seek");
     let cases = std::io::BufReader::new(file);
@@ -289,6 +306,10 @@ pub fn child_main(args: &[String]) -> i32 {
         let line = line.expect("read case");
         let i = start + k;
         let case: Value = serde_json::from_str(&line).expect("parse case");
+        if capped.contains(&case_label(&case).as_str()) {
+            writeln!(out, "R {i} {}", json!({"skip": "capped"})).expect("write");
+            continue
+        }
         writeln!(out, "B {i}").expect("write");
         nix::unistd::alarm::set(CASE_SECONDS);
         let res = run_case(&case, dir.path());
@@ -321,11 +342,15 @@ fn run_in_child(out_dir: &Path, cases: &[Value]) -> Vec<Value> {
     let mut results: Vec<Option<Value>> = vec![None; cases.len()];
     let mut start = 0;
     let mut restarts = 0;
+    let mut deaths: std::collections::BTreeMap<String, usize> = Default::default();
     while start < cases.len() {
+        let capped: Vec<String> = deaths.iter().filter(|(_, n)| **n >= MAX_DEATHS_PER_READER)
+            .map(|(l, _)| l.clone()).collect();
         let _ = std::fs::remove_file(&results_path);
         let status = std::process::Command::new(&exe)
             .arg("c27-child").arg(&cases_path).arg(&results_path).arg(start.to_string())
             .arg(offsets[start].to_string())
+            .arg(capped.join(","))
             .stdout(std::process::Stdio::null())
             .status().expect("spawn child");
         let mut last_begun: Option<usize> = None;
@@ -369,6 +394,7 @@ fn run_in_child(out_dir: &Path, cases: &[Value]) -> Vec<Value> {
             }
         };
         results[culprit] = Some(json!({"died": how, "note": note}));
+        *deaths.entry(case_label(&cases[culprit])).or_insert(0) += 1;
         start = culprit + 1;
         restarts += 1;
         if restarts > 5000 { break }
@@ -809,7 +835,10 @@ pub fn run_c27(ctx: &mut Ctx) {
         let label = case_label(case);
         let how = case["how"].as_str().unwrap_or("corpus");
         let len = data_len(case);
-        if result.get("skip").is_some() { ctx.count("skipped:unparsable-input"); continue }
+        if let Some(why) = result["skip"].as_str() {
+            ctx.count(if why == "capped" { "skipped:reader-killed-too-many-children" } else { "skipped:unparsable-input" });
+            continue
+        }
         // 1. the child died
         if let Some(died) = result["died"].as_str() {
             let note = result["note"].as_str().unwrap_or("");
@@ -852,8 +881,16 @@ pub fn run_c27(ctx: &mut Ctx) {
                     ctx.count(&format!("class:{label}:{class}"));
                 }
                 _ => {
-                    let calls = result["calls"].to_string();
-                    ctx.case_oracle_only(case, &calls);
+                    // archive: the model predicts the outcome of every call
+                    let call = |name: &str| result["calls"][name].as_str().map(|s| s.to_string());
+                    let mut imp = format!(
+                        "verify=[{}] state=[{}] objects=[{}]",
+                        call("verify").unwrap_or_default(), call("state").unwrap_or_default(),
+                        call("objects").unwrap_or_default()
+                    );
+                    if let Some(l) = call("load") { imp.push_str(&format!(" load=[{l}]")) }
+                    let probe = case["probe"].as_str().unwrap_or(".");
+                    ctx.case(case, &format!("c27archive {}|{}", probe, sparse_text(&case["data"])), &imp);
                     let sig: Vec<String> = result["calls"].as_object().map(|m| m.iter().map(|(k, v)| {
                         format!("{k}={}", v.as_str().unwrap_or("?").split(' ').next().unwrap_or("?"))
                     }).collect()).unwrap_or_default();
